@@ -89,7 +89,7 @@ def relayout(tokens, mode, rnd=None):
     """tokens: [[kind, text]..] from the lexer.  Only existing `ws` tokens are rewritten (never inserted or
     removed, so token adjacency -- `>>`, `..=`, `'a` -- is preserved); a line comment keeps a newline after it.
     mode: 'lines' (every gap a newline), 'flat' (every gap one space), 'random', 'tabs' (leading blanks -> tabs),
-    'crlf' (LF -> CRLF), 'blank' (every newline doubled)."""
+    'crlf' (LF -> CRLF), 'blank' (every newline doubled), 'ffblank' (half of the line breaks become runs of blank lines holding a form feed / vertical tab / U+2028)."""
     out = []
     prev_kind = None
     for kind, text in tokens:
@@ -108,6 +108,10 @@ def relayout(tokens, mode, rnd=None):
                 text = text.replace("\r\n", "\n").replace("\n", "\r\n")
             elif mode == "blank":
                 text = text.replace("\n", "\n\n")
+            elif mode == "ffblank":
+                # blank runs holding white space other than LF / CR / space / tab: form feed (page break), vertical tab, U+2028
+                if "\n" in text and rnd.random() < 0.5:
+                    text = text.replace("\n", "\n" + rnd.choice(["\x0c", "\x0b", "\u2028", " \x0c "]) + "\n\n\n", 1)
         out.append(text)
         prev_kind = kind
     return "".join(out)
